@@ -54,7 +54,8 @@ def compare(x, obs, timeout_pids=()):
   ok, why, pairs = _match_optional(
       x.phases, rec['phases'],
       lambda e: (e['name'], e['outcome'], e['result'], e['subtest']),
-      lambda o: (o['name'], o['outcome'], o['result'], o['subtest']),
+      # a body that called sys.exit() shows up as a killed thread
+      lambda o: (o['name'], o['outcome'], 'EXC:SystemExit' if o['result'] == 'KILLED' else o['result'], o['subtest']),
       lambda e: e['optional'])
   if not ok:
     out.append(('phase-records', 'sequence', why + '\n   expected=%r\n   observed=%r' % (
